@@ -129,4 +129,14 @@ CHECKS = {
              "thorough": {"checks": 6000, "shards": 4, "timeout": "90m"}},
         ],
     },
+    "C07": {
+        "level": "fault_enumeration",
+        "assumptions": EXPLORATION_ASSUMPTIONS + ["'bounded time' is decided as: DISCONNECTED delivered, every Close returned and goroutines gone within 20 s (typical: milliseconds; a rate-limited write may legitimately sleep one line charge <= 6.25 s); on expiry the goroutine dump is stored in the replay file",
+                                                  "leak detection counts goroutines with a frame in a *Conn method (send, recv, runLoop, ping, close)"],
+        "legs": [
+            {"test": "TestC07_Regress", "quick": {"timeout": "10m"}, "thorough": {"timeout": "10m"}},
+            {"test": "TestC07", "quick": {"checks": 250, "timeout": "30m", "env": {"VERIF_C07_RL_ONE_IN": 40, "VERIF_C07_RL_CYCLES": 1}},
+             "thorough": {"checks": 2500, "shards": 8, "timeout": "120m", "env": {"VERIF_C07_RL_ONE_IN": 25, "VERIF_C07_RL_CYCLES": 2}}},
+        ],
+    },
 }
